@@ -450,6 +450,12 @@ func cmdCheck(args []string) int {
 		},
 		"assumptions": trusted,
 	}
+	// properties decided only through a stated reduct: the evidence level is "other" (as in
+	// MANIFEST.json) and says what is and is not covered; the obligation counts stay as measured
+	if lv := reductLevels(filepath.Join(filepath.Dir(*specDir), "levels.json"))[*prop]; lv != "" {
+		ev["level"] = "other"
+		ev["coverage"].(map[string]interface{})["explanation"] = lv
+	}
 	if *evidence != "" {
 		os.MkdirAll(filepath.Dir(*evidence), 0o755)
 		data, _ := json.MarshalIndent(ev, "", " ")
@@ -494,3 +500,13 @@ func relPaths(fs []string, repo string) []string {
 }
 
 var _ ssa.Value
+
+
+// reductLevels reads /verif/levels.json: property id -> explanation of the reduct that is proved
+func reductLevels(path string) map[string]string {
+	m := map[string]string{}
+	if data, err := os.ReadFile(path); err == nil {
+		_ = json.Unmarshal(data, &m)
+	}
+	return m
+}
